@@ -109,9 +109,12 @@ CaseSet == { c \in [stacking : Stackings, at : 1..8] : c.at <= Len(Phases(c.stac
 \* dwell: the peer first sits out every idle wait it passes for longer than the read-header limit (but less than
 \* the idle limit) and sends its heads in two pieces - legal, and no limit has elapsed
 HasIdleBefore(c) == \E i \in 1..(c.at - 1) : Phases(c.stacking)[i] = "idle"
+\* cb: the CONNECT that opens the intercepted session announces a body (Content-Length) - there is none, what follows
+\* belongs to the tunnel; phases and limits are the same
 EmitCases == \A c \in CaseSet : \A dw \in {d \in BOOLEAN : d => HasIdleBefore(c)} :
+                \A cb \in {b \in BOOLEAN : b => (c.stacking = "mitm" /\ c.at >= 3 /\ ~dw)} :
                 PrintT(ToJson([stacking |-> c.stacking, at |-> c.at, phase |-> Phases(c.stacking)[c.at],
-                               limitName |-> Phases(c.stacking)[c.at], dwell |-> dw]))
+                               limitName |-> Phases(c.stacking)[c.at], dwell |-> dw, cb |-> cb]))
 GenNext == FALSE /\ UNCHANGED vars
 EmitOnce == (stacking = "plain" /\ \A p \in Peers : stallAt[p] = 1) => EmitCases
 ==============================================================================
